@@ -66,30 +66,24 @@ Proof. intros a b Ha Hb H. apply conflict_write in H. destruct H; congruence. Qe
 (* ================================================================================================ *)
 (* shape of a fork/join execution                                                                    *)
 (* ================================================================================================ *)
+Definition sync_free (s : step) : Prop := match s with SGo _ | SWait _ => False | _ => True end.
+
 Section FJ.
-  Variables (pre post : list acc) (ws : list (list acc)).
+  Variables (pre post : list acc) (ws : list (list step)).
+  Hypothesis Hsf : forall t s, In s (nth t ws []) -> sync_free s.   (* workers neither fork nor join *)
   Let n := List.length ws.
   Let P := List.length pre.
-  Let x := fj_exec pre post ws.
+  Let x := fjs_exec pre post ws.
 
-  Lemma fj_worker_step : forall t q, step_at x (S t, q) = option_map SAcc (nth_error (nth t ws []) q).
-  Proof.
-    intros t q. unfold step_at, x, fj_exec. cbn [fst snd nth].
-    destruct (Nat.lt_ge_cases t (List.length ws)) as [Hlt|Hge].
-    - rewrite (nth_indep _ [] (map SAcc [])) by (rewrite map_length; exact Hlt).
-      rewrite map_nth. apply nth_error_map.
-    - rewrite !nth_overflow by (try rewrite map_length; exact Hge). destruct q; reflexivity.
-  Qed.
+  Lemma fj_worker_step : forall t q, step_at x (S t, q) = nth_error (nth t ws []) q.
+  Proof. intros t q. reflexivity. Qed.
 
-  Lemma fj_worker_acc : forall t q s, step_at x (S t, q) = Some s ->
-    exists a, s = SAcc a /\ nth_error (nth t ws []) q = Some a /\ In a (nth t ws []) /\ t < n.
+  Lemma fj_worker_in : forall t q s, step_at x (S t, q) = Some s ->
+    nth_error (nth t ws []) q = Some s /\ In s (nth t ws []) /\ t < n.
   Proof.
-    intros t q s H. rewrite fj_worker_step in H.
-    destruct (nth_error (nth t ws []) q) as [a|] eqn:E; [|discriminate].
-    cbn in H. inversion H; subst. exists a. repeat split; try reflexivity.
-    - eapply nth_error_In; eauto.
-    - destruct (Nat.lt_ge_cases t n) as [Hlt|Hge]; [exact Hlt|].
-      unfold n in Hge. rewrite nth_overflow in E by exact Hge. destruct q; discriminate.
+    intros t q s H. rewrite fj_worker_step in H. split; [exact H|]. split; [eapply nth_error_In; eauto|].
+    destruct (Nat.lt_ge_cases t n) as [Hlt|Hge]; [exact Hlt|].
+    unfold n in Hge. rewrite nth_overflow in H by exact Hge. destruct q; discriminate.
   Qed.
 
   Lemma fj_parent_step : forall p, step_at x (0, p) = nth_error (fj_parent pre post n) p.
@@ -183,7 +177,7 @@ Section FJ.
   Lemma pre_hb_worker : forall cap p t q s, p < P -> step_at x (S t, q) = Some s -> hb cap x (0, p) (S t, q).
   Proof.
     intros cap p t q s Hp Hs.
-    destruct (fj_worker_acc t q s Hs) as [a [_ [_ [_ Ht]]]].
+    destruct (fj_worker_in t q s Hs) as [_ [_ Ht]].
     destruct (step_before (S t) 0 q s ltac:(lia) Hs) as [s0 Hs0].
     assert (Hgo : hb cap x (0, P + t) (S t, 0)).
     { apply t_step. eapply E_go; [apply parent_go; exact Ht|exact Hs0]. }
@@ -198,15 +192,13 @@ Section FJ.
     step_at x (0, p) = Some sp -> hb cap x (S t, q) (0, p).
   Proof.
     intros cap p t q s sp Hp Hs Hsp.
-    destruct (fj_worker_acc t q s Hs) as [a [_ [Hq [_ Ht]]]].
+    destruct (fj_worker_in t q s Hs) as [Hq [_ Ht]].
     set (L := List.length (nth t ws [])).
     assert (HL : q < L) by (apply nth_error_Some; congruence).
     assert (Hlen : List.length (nth (S t) x []) = S (L - 1)).
-    { unfold x, fj_exec. cbn [nth].
-      rewrite (nth_indep _ [] (map SAcc [])) by (rewrite map_length; exact Ht).
-      rewrite map_nth, map_length. fold L. lia. }
+    { unfold x, fjs_exec. cbn [nth]. fold L. lia. }
     assert (Hlast : exists sl, step_at x (S t, L - 1) = Some sl).
-    { rewrite fj_worker_step. destruct (nth_error (nth t ws []) (L - 1)) eqn:E; [cbn; eauto|].
+    { rewrite fj_worker_step. destruct (nth_error (nth t ws []) (L - 1)) eqn:E; [eauto|].
       apply nth_error_None in E. fold L in E. lia. }
     destruct Hlast as [sl Hsl].
     assert (Hw : hb cap x (S t, L - 1) (0, P + n + t)).
@@ -217,8 +209,9 @@ Section FJ.
   Qed.
 
   (* ---- race freedom from pairwise non-conflicting workers ------------------------------------ *)
-  Theorem fj_race_free : forall cap,
-    (forall i j a b, i <> j -> In a (nth i ws []) -> In b (nth j ws []) -> ~ conflict a b) ->
+  (* (channel edges between the workers can only order more accesses) *)
+  Theorem fjs_race_free : forall cap,
+    (forall i j a b, i <> j -> In (SAcc a) (nth i ws []) -> In (SAcc b) (nth j ws []) -> ~ conflict a b) ->
     race_free cap x.
   Proof.
     intros cap Hdis [e1 [e2 [a [b [Hne [H1 [H2 [Hc [Hn1 Hn2]]]]]]]]].
@@ -231,13 +224,18 @@ Section FJ.
     - destruct (parent_cases p2 _ H2) as [[Hp _]|[[_ Hs]|[[_ Hs]|[Hp _]]]]; try discriminate.
       + apply Hn2. eapply pre_hb_worker; eauto.
       + apply Hn1. eapply worker_hb_post; eauto.
-    - destruct (fj_worker_acc t1 p1 _ H1) as [a' [Ea [_ [Ha _]]]].
-      destruct (fj_worker_acc t2 p2 _ H2) as [b' [Eb [_ [Hb _]]]].
-      inversion Ea; inversion Eb; subst a' b'.
+    - destruct (fj_worker_in t1 p1 _ H1) as [_ [Ha _]].
+      destruct (fj_worker_in t2 p2 _ H2) as [_ [Hb _]].
       apply (Hdis t1 t2 a b); try assumption. lia.
   Qed.
 
-  (* ---- and conversely: a conflicting pair in two different workers IS a race ---------------- *)
+  (* ---- and conversely, for workers that only access memory: a conflicting pair in two different
+          workers IS a race ----------------------------------------------------------------------- *)
+  Hypothesis Hacc : forall t s, In s (nth t ws []) -> exists a, s = SAcc a.
+
+  Lemma fj_worker_acc : forall t q s, step_at x (S t, q) = Some s -> exists a, s = SAcc a.
+  Proof. intros t q s H. destruct (fj_worker_in t q s H) as [_ [Hin _]]. eapply Hacc; eauto. Qed.
+
   (* everything reachable from a step of worker t1 is in worker t1 or in the parent after the go statements *)
   Let inv (t1 : nat) (e : ev) : Prop := fst e = S t1 \/ (fst e = 0 /\ P + n <= snd e).
 
@@ -246,21 +244,21 @@ Section FJ.
     intros cap t1 e e' He Hi. unfold inv in *. destruct He as [t i s Hs | e t s Hg Hs | e t i Hw Hl | e1 e2 c k H1 H2 | e1 e2 c H1 H2 | e1 e2 c k H1 H2].
     - destruct Hi as [Hi|[Hi1 Hi2]]; cbn [fst snd] in *; [left; exact Hi|right; split; [exact Hi1|lia]].
     - exfalso. destruct e as [te pe]. destruct Hi as [Hi|[Hi1 Hi2]]; cbn [fst snd] in *; subst te.
-      + destruct (fj_worker_acc _ _ _ Hg) as [a [Ea _]]. discriminate.
+      + destruct (fj_worker_acc _ _ _ Hg) as [a Ea]. discriminate.
       + destruct (parent_cases pe _ Hg) as [[Hp _]|[[Hp _]|[[_ Hs']|[_ [a Ha]]]]]; try discriminate; lia.
     - destruct e as [te pe]. destruct te as [|te].
       + destruct (parent_cases pe _ Hw) as [[_ [a Ha]]|[[_ Hs']|[[Hp Hs']|[_ [a Ha]]]]]; try discriminate.
         right. cbn [fst snd]. split; [reflexivity|lia].
-      + destruct (fj_worker_acc _ _ _ Hw) as [a [Ea _]]. discriminate.
+      + destruct (fj_worker_acc _ _ _ Hw) as [a Ea]. discriminate.
     - exfalso. destruct e1 as [[|te] pe].
       + destruct (parent_cases pe _ H1) as [[_ [a Ha]]|[[_ Hs']|[[_ Hs']|[_ [a Ha]]]]]; discriminate.
-      + destruct (fj_worker_acc _ _ _ H1) as [a [Ea _]]. discriminate.
+      + destruct (fj_worker_acc _ _ _ H1) as [a Ea]. discriminate.
     - exfalso. destruct e1 as [[|te] pe].
       + destruct (parent_cases pe _ H1) as [[_ [a Ha]]|[[_ Hs']|[[_ Hs']|[_ [a Ha]]]]]; discriminate.
-      + destruct (fj_worker_acc _ _ _ H1) as [a [Ea _]]. discriminate.
+      + destruct (fj_worker_acc _ _ _ H1) as [a Ea]. discriminate.
     - exfalso. destruct e1 as [[|te] pe].
       + destruct (parent_cases pe _ H1) as [[_ [a Ha]]|[[_ Hs']|[[_ Hs']|[_ [a Ha]]]]]; discriminate.
-      + destruct (fj_worker_acc _ _ _ H1) as [a [Ea _]]. discriminate.
+      + destruct (fj_worker_acc _ _ _ H1) as [a Ea]. discriminate.
   Qed.
 
   Lemma inv_hb : forall cap t1 e e', hb cap x e e' -> inv t1 e -> inv t1 e'.
@@ -277,18 +275,52 @@ Section FJ.
     destruct Hi as [Hi|[Hi _]]; cbn [fst] in Hi; [lia|discriminate].
   Qed.
 
-  Theorem fj_race : forall cap i j a b, i <> j -> In a (nth i ws []) -> In b (nth j ws []) -> conflict a b ->
+  Theorem fjs_race : forall cap i j a b, i <> j -> In (SAcc a) (nth i ws []) -> In (SAcc b) (nth j ws []) -> conflict a b ->
     race cap x.
   Proof.
     intros cap i j a b Hne Ha Hb Hc.
     apply In_nth_error in Ha. destruct Ha as [p1 Hp1].
     apply In_nth_error in Hb. destruct Hb as [p2 Hp2].
     exists (S i, p1), (S j, p2), a, b. cbn [fst].
-    split; [lia|]. split; [rewrite fj_worker_step, Hp1; reflexivity|].
-    split; [rewrite fj_worker_step, Hp2; reflexivity|].
+    split; [lia|]. split; [rewrite fj_worker_step; exact Hp1|].
+    split; [rewrite fj_worker_step; exact Hp2|].
     split; [exact Hc|]. split; apply workers_unordered; auto.
   Qed.
 End FJ.
+
+(* workers that only access memory *)
+Lemma nth_map_map : forall (aws : list (list acc)) i, nth i (map (map SAcc) aws) [] = map SAcc (nth i aws []).
+Proof.
+  intros aws i. destruct (Nat.lt_ge_cases i (List.length aws)) as [Hlt|Hge].
+  - rewrite (nth_indep _ [] (map SAcc [])) by (rewrite map_length; exact Hlt). apply map_nth.
+  - rewrite !nth_overflow by (try rewrite map_length; exact Hge). reflexivity.
+Qed.
+
+Lemma in_map_sacc : forall a l, In (SAcc a) (map SAcc l) <-> In a l.
+Proof.
+  intros a l. rewrite in_map_iff. split.
+  - intros [b [Hb Hin]]. inversion Hb; subst. exact Hin.
+  - intros H. exists a. auto.
+Qed.
+
+Theorem fj_race_free : forall pre post aws cap,
+  (forall i j a b, i <> j -> In a (nth i aws []) -> In b (nth j aws []) -> ~ conflict a b) ->
+  race_free cap (fj_exec pre post aws).
+Proof.
+  intros pre post aws cap H. unfold fj_exec. apply fjs_race_free.
+  intros i j a b Hne Ha Hb. rewrite nth_map_map in Ha, Hb. apply in_map_sacc in Ha. apply in_map_sacc in Hb.
+  eapply H; eauto.
+Qed.
+
+Theorem fj_race : forall pre post aws cap i j a b, i <> j -> In a (nth i aws []) -> In b (nth j aws []) -> conflict a b ->
+  race cap (fj_exec pre post aws).
+Proof.
+  intros pre post aws cap i j a b Hne Ha Hb Hc. unfold fj_exec.
+  apply (fjs_race pre post (map (map SAcc) aws)) with (i := i) (j := j) (a := a) (b := b); try assumption.
+  - intros t s Hs. rewrite nth_map_map in Hs. apply in_map_iff in Hs. destruct Hs as [a0 [Ha0 _]]. eauto.
+  - rewrite nth_map_map. apply in_map_sacc. exact Ha.
+  - rewrite nth_map_map. apply in_map_sacc. exact Hb.
+Qed.
 
 (* ================================================================================================ *)
 (* workers that split the records by RecordRange                                                     *)
@@ -437,22 +469,34 @@ Proof.
   - apply String.eqb_eq in H. subst. reflexivity.
 Qed.
 
-Lemma uniform_same : forall fs f g, uniform fs = true -> In f fs -> In g fs -> f_shape f = f_shape g.
+Lemma uniform_nd_same : forall fs f g, uniform fs = true -> In f fs -> In g fs ->
+  is_direct_read f = false -> is_direct_read g = false -> f_shape f = f_shape g.
 Proof.
-  intros fs f g Hu Hf Hg. destruct fs as [|h t]; [destruct Hf|].
-  cbn [uniform] in Hu.
-  assert (Hall : forallb (fun g0 => shape_eqb (f_shape g0) (f_shape h)) (h :: t) = true).
-  { destruct (f_shape h); try discriminate; exact Hu. }
-  rewrite forallb_forall in Hall.
-  rewrite (shape_eqb_eq _ _ (Hall f Hf)), (shape_eqb_eq _ _ (Hall g Hg)). reflexivity.
+  intros fs f g Hu Hf Hg Df Dg. unfold uniform in Hu.
+  assert (Hf' : In f (filter (fun f => negb (is_direct_read f)) fs)) by (apply filter_In; rewrite Df; auto).
+  assert (Hg' : In g (filter (fun f => negb (is_direct_read f)) fs)) by (apply filter_In; rewrite Dg; auto).
+  destruct (filter (fun f => negb (is_direct_read f)) fs) as [|h t] eqn:E; [destruct Hf'|].
+  assert (Hall : forall q, In q (h :: t) -> shape_eqb (f_shape q) (f_shape h) = true).
+  { destruct (f_shape h) eqn:Eh; try discriminate; rewrite forallb_forall in Hu.
+    - intros q [<-|Hq]; [rewrite Eh; reflexivity|apply Hu; exact Hq].
+    - intros q [<-|Hq]; [rewrite Eh; reflexivity|apply Hu; exact Hq].
+    - intros q Hq. apply Hu. rewrite <- E in Hq. apply filter_In in Hq. tauto. }
+  rewrite (shape_eqb_eq _ _ (Hall f Hf')), (shape_eqb_eq _ _ (Hall g Hg')). reflexivity.
 Qed.
 
-Lemma uniform_good : forall fs f, uniform fs = true -> In f fs ->
-  f_shape f = ShIdx \/ f_shape f = ShWorker \/ exists m, f_shape f = ShLocked m.
+Lemma uniform_locked_all : forall fs g m, uniform fs = true -> In g fs -> f_shape g = ShLocked m ->
+  forall f, In f fs -> f_shape f = ShLocked m.
 Proof.
-  intros fs f Hu Hf. destruct fs as [|h t]; [destruct Hf|].
-  rewrite (uniform_same _ f h Hu Hf (or_introl eq_refl)).
-  cbn [uniform] in Hu. destruct (f_shape h); try discriminate; eauto.
+  intros fs g m Hu Hg Hs f Hf. unfold uniform in Hu.
+  assert (Dg : is_direct_read g = false) by (unfold is_direct_read; rewrite Hs; destruct (f_mode g); reflexivity).
+  assert (Hg' : In g (filter (fun f => negb (is_direct_read f)) fs)) by (apply filter_In; rewrite Dg; auto).
+  destruct (filter (fun f => negb (is_direct_read f)) fs) as [|h t] eqn:E; [destruct Hg'|].
+  destruct (f_shape h) eqn:Eh; try discriminate; rewrite forallb_forall in Hu.
+  - destruct Hg' as [<-|Hg']; [congruence|]. apply Hu in Hg'. rewrite Hs in Hg'. discriminate.
+  - destruct Hg' as [<-|Hg']; [congruence|]. apply Hu in Hg'. rewrite Hs in Hg'. discriminate.
+  - assert (Hgh : shape_eqb (f_shape g) (ShLocked m0) = true) by (apply Hu; exact Hg).
+    rewrite Hs in Hgh. apply shape_eqb_eq in Hgh. rewrite Hgh.
+    apply shape_eqb_eq. apply Hu. exact Hf.
 Qed.
 
 Section Discipline.
@@ -484,6 +528,8 @@ Section Discipline.
       a = mkAcc (f_mode f) (Idx (f_path f) k) [] -> body_acc k a
   | BA_lock : forall f m, In f (s_facts s) -> is_w f = true -> f_shape f = ShLocked m ->
       a = mkAcc (f_mode f) (Var (f_path f)) [m] -> body_acc k a
+  | BA_hdr : forall f, In f (s_facts s) -> is_w f = true -> is_direct_read f = true ->
+      a = mkAcc Rd (Var (f_path f)) [] -> body_acc k a
   | BA_ro : forall f, In f (s_facts s) -> is_w f = false ->
       a = mkAcc Rd (Var (f_path f)) [] -> body_acc k a.
 
@@ -491,9 +537,10 @@ Section Discipline.
   Proof.
     intros k a H. unfold site_body in H. apply in_app_or in H. destruct H as [H|H].
     - apply in_flat_map in H. destruct H as [f [Hf Ha]]. apply filter_In in Hf. destruct Hf as [Hf Hw].
-      unfold fact_body in Ha. destruct (f_shape f) eqn:E; try (exfalso; exact Ha); destruct Ha as [<-|[]].
-      + eapply BA_idx; eauto.
-      + eapply BA_lock; eauto.
+      unfold fact_body in Ha. destruct (f_shape f) eqn:E; try (exfalso; exact Ha).
+      + destruct Ha as [<-|[]]. eapply BA_idx; eauto.
+      + destruct Ha as [<-|[]]. eapply BA_lock; eauto.
+      + destruct (is_direct_read f) eqn:D; [|destruct Ha]. destruct Ha as [<-|[]]. eapply BA_hdr; eauto.
     - apply in_flat_map in H. destruct H as [f [Hf Ha]]. unfold fact_ro in Ha.
       fold wp in Ha. destruct (existsb (String.eqb (f_path f)) wp) eqn:E; [destruct Ha|].
       destruct Ha as [<-|[]]. eapply BA_ro; eauto.
@@ -507,10 +554,25 @@ Section Discipline.
     destruct (f_shape f) eqn:E; try (exfalso; exact Ha); destruct Ha as [<-|[]]. exists f. auto.
   Qed.
 
-  Lemma same_path_same_shape : forall f g, In f (s_facts s) -> In g (s_facts s) -> is_w f = true ->
-    f_path f = f_path g -> f_shape f = f_shape g.
+  Lemma nd_of_shape : forall f, f_shape f = ShIdx \/ f_shape f = ShWorker \/ (exists m, f_shape f = ShLocked m) ->
+    is_direct_read f = false.
   Proof.
-    intros f g Hf Hg Hw Hp. apply (uniform_same (facts_of s (f_path f))).
+    intros f [H|[H|[m H]]]; unfold is_direct_read; rewrite H; destruct (f_mode f); reflexivity.
+  Qed.
+
+  Lemma same_path_same_shape : forall f g, In f (s_facts s) -> In g (s_facts s) -> is_w f = true ->
+    f_path f = f_path g -> is_direct_read f = false -> is_direct_read g = false -> f_shape f = f_shape g.
+  Proof.
+    intros f g Hf Hg Hw Hp Df Dg. apply (uniform_nd_same (facts_of s (f_path f))); try assumption.
+    - apply ok_uniform; assumption.
+    - apply in_facts_of. exact Hf.
+    - rewrite Hp. apply in_facts_of. exact Hg.
+  Qed.
+
+  Lemma locked_path_all_locked : forall f g m, In f (s_facts s) -> In g (s_facts s) -> is_w f = true ->
+    f_path f = f_path g -> f_shape f = ShLocked m -> f_shape g = ShLocked m.
+  Proof.
+    intros f g m Hf Hg Hw Hp Hs. apply (uniform_locked_all (facts_of s (f_path f)) f m); try assumption.
     - apply ok_uniform; assumption.
     - apply in_facts_of. exact Hf.
     - rewrite Hp. apply in_facts_of. exact Hg.
@@ -521,14 +583,23 @@ Section Discipline.
     intros k1 k2 a1 a2 Hne H1 H2 Hc.
     apply site_body_acc in H1. apply site_body_acc in H2.
     pose proof (conflict_loc _ _ Hc) as Hl.
-    destruct H1 as [f Hf Hw Hs ->|f m Hf Hw Hs ->|f Hf Hw ->];
-    destruct H2 as [g Hg Hw' Hs' ->|g m' Hg Hw' Hs' ->|g Hg Hw' ->]; cbn in Hl; try discriminate.
+    destruct H1 as [f Hf Hw Hs ->|f m Hf Hw Hs ->|f Hf Hw Hd ->|f Hf Hw ->];
+    destruct H2 as [g Hg Hw' Hs' ->|g m' Hg Hw' Hs' ->|g Hg Hw' Hd' ->|g Hg Hw' ->]; cbn in Hl; try discriminate.
     - inversion Hl. contradiction.
     - inversion Hl as [Hp].
-      pose proof (same_path_same_shape f g Hf Hg Hw Hp) as E. rewrite Hs, Hs' in E. inversion E; subst m'.
+      pose proof (locked_path_all_locked f g m Hf Hg Hw Hp Hs) as E. rewrite Hs' in E. inversion E; subst m'.
       revert Hc. apply (drf_mutex _ _ m); cbn; auto.
+    - inversion Hl as [Hp].
+      pose proof (locked_path_all_locked f g m Hf Hg Hw Hp Hs) as E.
+      unfold is_direct_read in Hd'. rewrite E in Hd'. destruct (f_mode g); discriminate.
     - inversion Hl as [Hp]. unfold is_w in Hw, Hw'. rewrite Hp in Hw. congruence.
+    - inversion Hl as [Hp]. symmetry in Hp.
+      pose proof (locked_path_all_locked g f m' Hg Hf Hw' Hp Hs') as E.
+      unfold is_direct_read in Hd. rewrite E in Hd. destruct (f_mode f); discriminate.
+    - revert Hc. apply reads_no_conflict; reflexivity.
+    - revert Hc. apply reads_no_conflict; reflexivity.
     - inversion Hl as [Hp]. unfold is_w in Hw, Hw'. rewrite Hp in Hw. congruence.
+    - revert Hc. apply reads_no_conflict; reflexivity.
     - revert Hc. apply reads_no_conflict; reflexivity.
   Qed.
 
@@ -540,9 +611,11 @@ Section Discipline.
       apply conflict_loc in Hc. cbn in Hc. inversion Hc. contradiction.
     - intros i k a b Ha Hb Hc. apply site_epi_acc in Ha. destruct Ha as [f [Hf [Hw [Hs ->]]]].
       apply site_body_acc in Hb. apply conflict_loc in Hc.
-      destruct Hb as [g Hg Hw' Hs' ->|g m' Hg Hw' Hs' ->|g Hg Hw' ->]; cbn in Hc; try discriminate.
+      destruct Hb as [g Hg Hw' Hs' ->|g m' Hg Hw' Hs' ->|g Hg Hw' Hd' ->|g Hg Hw' ->]; cbn in Hc; try discriminate.
       inversion Hc as [[Hp Hik]].
-      pose proof (same_path_same_shape f g Hf Hg Hw Hp) as E. rewrite Hs, Hs' in E. discriminate.
+      assert (E : f_shape f = f_shape g).
+      { apply same_path_same_shape; try assumption; apply nd_of_shape; [right; left; exact Hs|left; exact Hs']. }
+      rewrite Hs, Hs' in E. discriminate.
   Qed.
 
   Lemma not_reserved_avoids : forall p m l, reserved p = false -> avoids_tm (mkAcc m (Var p) l).
@@ -557,8 +630,9 @@ Section Discipline.
   Lemma site_body_avoids : forall k a, In a (site_body s k) -> avoids_tm a.
   Proof.
     intros k a H. apply site_body_acc in H.
-    destruct H as [f Hf Hw Hs ->|f m Hf Hw Hs ->|f Hf Hw ->].
+    destruct H as [f Hf Hw Hs ->|f m Hf Hw Hs ->|f Hf Hw Hd ->|f Hf Hw ->].
     - unfold avoids_tm, tm_err. cbn. repeat split; discriminate.
+    - apply not_reserved_avoids. apply ok_not_reserved. exact Hf.
     - apply not_reserved_avoids. apply ok_not_reserved. exact Hf.
     - apply not_reserved_avoids. apply ok_not_reserved. exact Hf.
   Qed.
@@ -581,3 +655,160 @@ Section Discipline.
     - apply site_epi_avoids.
   Qed.
 End Discipline.
+
+(* ================================================================================================ *)
+(* deciding "does not happen before" on a concrete execution (for the refutations)                  *)
+(* ================================================================================================ *)
+Definition step_eqb (a b : step) : bool :=
+  match a, b with
+  | SGo t, SGo t' => Nat.eqb t t'
+  | SWait t, SWait t' => Nat.eqb t t'
+  | SSend c k, SSend c' k' => String.eqb c c' && Nat.eqb k k'
+  | SRecv c k, SRecv c' k' => String.eqb c c' && Nat.eqb k k'
+  | SClose c, SClose c' => String.eqb c c'
+  | SRecvClosed c, SRecvClosed c' => String.eqb c c'
+  | _, _ => false
+  end.
+
+Definition ev_eqb (a b : ev) : bool := Nat.eqb (fst a) (fst b) && Nat.eqb (snd a) (snd b).
+Lemma ev_eqb_eq : forall a b, ev_eqb a b = true <-> a = b.
+Proof.
+  intros [a1 a2] [b1 b2]. unfold ev_eqb. cbn. rewrite andb_true_iff, !Nat.eqb_eq. split.
+  - intros [-> ->]. reflexivity.
+  - intros H. inversion H. auto.
+Qed.
+Definition ev_mem (e : ev) (l : list ev) : bool := existsb (ev_eqb e) l.
+
+Section Decide.
+  Variable cap : string -> nat.
+  Variable x : exec.
+
+  (* a boolean that is true on every edge (and possibly more: more edges only hide races) *)
+  Definition edgeb (e e' : ev) : bool :=
+    match step_at x e, step_at x e' with
+    | Some s, Some s' =>
+        (Nat.eqb (fst e) (fst e') && Nat.eqb (snd e') (S (snd e)))
+        || (match s with SGo t => ev_eqb e' (t, 0) | _ => false end)
+        || (match s' with SWait t => Nat.eqb (fst e) t && Nat.eqb (List.length (nth t x [])) (S (snd e)) | _ => false end)
+        || (match s, s' with
+            | SSend c k, SRecv c' k' => String.eqb c c' && Nat.eqb k k'
+            | SClose c, SRecvClosed c' => String.eqb c c'
+            | SRecv c k, SSend c' k' => String.eqb c c' && Nat.eqb k' (k + cap c)
+            | _, _ => false
+            end)
+    | _, _ => false
+    end.
+
+  Lemma edge_edgeb : forall e e', edge cap x e e' -> edgeb e e' = true.
+  Proof.
+    intros e e' H. unfold edgeb.
+    destruct H as [t i s Hs | e t s Hg Hs | e t i Hw Hl | e1 e2 c k H1 H2 | e1 e2 c H1 H2 | e1 e2 c k H1 H2].
+    - assert (Hp : exists s0, step_at x (t, i) = Some s0).
+      { unfold step_at in *. cbn [fst snd] in *. destruct (nth_error (nth t x []) i) eqn:E; [eauto|].
+        apply nth_error_None in E. assert (nth_error (nth t x []) (S i) = None) by (apply nth_error_None; lia). congruence. }
+      destruct Hp as [s0 Hs0]. rewrite Hs0, Hs. cbn [fst snd]. rewrite !Nat.eqb_refl. reflexivity.
+    - rewrite Hg, Hs. unfold ev_eqb. cbn [fst snd]. rewrite !Nat.eqb_refl. cbn. rewrite orb_true_r. reflexivity.
+    - assert (Hp : exists s0, step_at x (t, i) = Some s0).
+      { unfold step_at. cbn [fst snd]. destruct (nth_error (nth t x []) i) eqn:E; [eauto|].
+        apply nth_error_None in E. lia. }
+      destruct Hp as [s0 Hs0]. rewrite Hs0, Hw. cbn [fst snd]. rewrite Hl, !Nat.eqb_refl. cbn.
+      rewrite !orb_true_r. reflexivity.
+    - rewrite H1, H2. rewrite String.eqb_refl, Nat.eqb_refl. cbn. rewrite !orb_true_r. reflexivity.
+    - rewrite H1, H2. rewrite String.eqb_refl. cbn. rewrite !orb_true_r. reflexivity.
+    - rewrite H1, H2. rewrite String.eqb_refl, Nat.eqb_refl. cbn. rewrite !orb_true_r. reflexivity.
+  Qed.
+
+  Lemma edge_target_step : forall e e', edge cap x e e' -> exists s, step_at x e' = Some s.
+  Proof.
+    intros e e' H. destruct H; eauto.
+  Qed.
+
+  (* all positions that hold a step *)
+  Definition events : list ev :=
+    List.concat (map (fun t => map (fun i => (t, i)) (seq 0 (List.length (nth t x [])))) (seq 0 (List.length x))).
+
+  Lemma events_complete : forall e s, step_at x e = Some s -> In e events.
+  Proof.
+    intros [t i] s H. unfold step_at in H. cbn [fst snd] in H.
+    assert (Hi : i < List.length (nth t x [])) by (apply nth_error_Some; congruence).
+    assert (Ht : t < List.length x).
+    { destruct (Nat.lt_ge_cases t (List.length x)) as [Hlt|Hge]; [exact Hlt|].
+      rewrite nth_overflow in Hi by exact Hge. cbn in Hi. lia. }
+    unfold events. apply List.in_concat. exists (map (fun i => (t, i)) (seq 0 (List.length (nth t x [])))).
+    split.
+    - apply in_map_iff. exists t. split; [reflexivity|apply in_seq; lia].
+    - apply in_map_iff. exists i. split; [reflexivity|apply in_seq; lia].
+  Qed.
+
+  (* S is closed under the edges *)
+  Definition closedb (Q : list ev) : bool :=
+    forallb (fun e => forallb (fun e' => negb (edgeb e e') || ev_mem e' Q) events) Q.
+
+  Lemma closed_edge : forall Q e e', closedb Q = true -> ev_mem e Q = true -> edge cap x e e' -> ev_mem e' Q = true.
+  Proof.
+    intros Q e e' Hc He Hedge. unfold closedb in Hc. rewrite forallb_forall in Hc.
+    unfold ev_mem in He. apply existsb_exists in He. destruct He as [e0 [He0 Heq]].
+    apply ev_eqb_eq in Heq. subst e0. specialize (Hc e He0). rewrite forallb_forall in Hc.
+    destruct (edge_target_step _ _ Hedge) as [s Hs].
+    specialize (Hc e' (events_complete e' s Hs)).
+    rewrite (edge_edgeb _ _ Hedge) in Hc. cbn in Hc. exact Hc.
+  Qed.
+
+  Lemma closed_hb : forall Q e e', closedb Q = true -> hb cap x e e' -> ev_mem e Q = true -> ev_mem e' Q = true.
+  Proof.
+    intros Q e e' Hc H. induction H as [e e' He | e e' e'' _ IH1 _ IH2]; intros Hm.
+    - eapply closed_edge; eauto.
+    - auto.
+  Qed.
+
+  (* a closed set that contains e but not e' witnesses that e does not happen before e' *)
+  Lemma not_hb_by_closed_set : forall Q e e', closedb Q = true -> ev_mem e Q = true -> ev_mem e' Q = false ->
+    ~ hb cap x e e'.
+  Proof.
+    intros Q e e' Hc He He' H. rewrite (closed_hb Q e e' Hc H He) in He'. discriminate.
+  Qed.
+
+  (* everything reachable from e along edgeb, by saturation (fuel = number of rounds) *)
+  Fixpoint saturate (fuel : nat) (Q : list ev) : list ev :=
+    match fuel with
+    | O => Q
+    | S f =>
+        let new := filter (fun e' => negb (ev_mem e' Q) && existsb (fun e => edgeb e e') Q) events in
+        match new with [] => Q | _ => saturate f (Q ++ new) end
+    end.
+  Definition reach (e : ev) : list ev := saturate (List.length events) [e].
+
+  (* decidable race witness: conflicting accesses in different threads, unordered both ways *)
+  Definition race_witnessb (e1 e2 : ev) : bool :=
+    match step_at x e1, step_at x e2 with
+    | Some (SAcc a), Some (SAcc b) =>
+        negb (Nat.eqb (fst e1) (fst e2)) && conflictb a b
+        && closedb (reach e1) && negb (ev_mem e2 (reach e1))
+        && closedb (reach e2) && negb (ev_mem e1 (reach e2))
+    | _, _ => false
+    end.
+
+  Lemma saturate_keeps : forall fuel Q e, ev_mem e Q = true -> ev_mem e (saturate fuel Q) = true.
+  Proof.
+    induction fuel as [|f IH]; intros Q e H; [exact H|]. cbn [saturate].
+    destruct (filter _ events) as [|h t] eqn:E; [exact H|].
+    apply IH. unfold ev_mem in *. rewrite existsb_app, H. reflexivity.
+  Qed.
+
+  Lemma race_witness_sound : forall e1 e2, race_witnessb e1 e2 = true -> race cap x.
+  Proof.
+    intros e1 e2 H. unfold race_witnessb in H.
+    destruct (step_at x e1) as [[a| | | | | |]|] eqn:E1; try discriminate.
+    destruct (step_at x e2) as [[b| | | | | |]|] eqn:E2; try discriminate.
+    repeat (apply andb_true_iff in H; destruct H as [H ?]).
+    exists e1, e2, a, b. split; [apply Nat.eqb_neq; apply negb_true_iff; assumption|].
+    split; [exact E1|]. split; [exact E2|]. split; [assumption|].
+    split.
+    - apply (not_hb_by_closed_set (reach e1)); try assumption.
+      + unfold reach. apply saturate_keeps. unfold ev_mem. cbn. rewrite (proj2 (ev_eqb_eq e1 e1) eq_refl). reflexivity.
+      + apply negb_true_iff. assumption.
+    - apply (not_hb_by_closed_set (reach e2)); try assumption.
+      + unfold reach. apply saturate_keeps. unfold ev_mem. cbn. rewrite (proj2 (ev_eqb_eq e2 e2) eq_refl). reflexivity.
+      + apply negb_true_iff. assumption.
+  Qed.
+End Decide.
